@@ -637,6 +637,46 @@ def _grouped(ctx, repo):
                "every normal path appends the member to the list and its encoding to the data",
                "GroupedType.append can return without appending the member to `_avps` and its dump() to `_data`: the Grouped "
                "data is no longer the concatenation of its members", key="append")
+    # every other writer of the Grouped data buffer re-derives it as the concatenation of the members' encodings
+    n_w = 0
+    for mname, fn in sorted(g.methods.items()):
+        for st_ in [x for x in walk_no_nested(fn) if isinstance(x, (ast.Assign, ast.AugAssign))]:
+            tgt = st_.targets[0] if isinstance(st_, ast.Assign) else st_.target
+            if ast.unparse(tgt) != "self._data":
+                continue
+            n_w += 1
+            txt = ast.unparse(st_)
+            okw = False
+            if isinstance(st_, ast.AugAssign) and isinstance(st_.op, ast.Add) and ast.unparse(st_.value).endswith(".dump()"):
+                v = st_.value.func.value
+                # appended encoding belongs to a listed member: the appended parameter, or the loop variable over self.avps
+                okw = isinstance(v, ast.Name)
+            elif txt in ("self._data = b''",):
+                okw = True
+            elif mname == "__init__" and txt == "self._data = data":
+                okw = True
+            ctx.decide(okw, "R-CONSERVE/grouped-data", f"{g.qual}.{mname}", g.where(st_),
+                       f"`{txt}` keeps the buffer equal to the concatenation of the members' dump()",
+                       f"`{txt[:90]}` edits the cached Grouped data other than by (re)concatenating whole member encodings: offsets "
+                       f"computed from AVP lengths ignore padding, so the data is no longer the concatenation of the members",
+                       key=f"data:{mname}:{txt[:40]}")
+        # a reset must be followed by a rebuild loop over the members in the same method (pop / __setitem__) unless the list is reset too
+        resets = [x for x in walk_no_nested(fn) if isinstance(x, ast.Assign) and ast.unparse(x) == "self._data = b''"]
+        if resets and mname not in ("cleanup", "__init__"):
+            src = ast.unparse(fn)
+            okr = "for avp in self.avps" in src and "self._data += avp.dump()" in src
+            ctx.decide(okr, "R-CONSERVE/grouped-data", f"{g.qual}.{mname}", g.where(resets[0]),
+                       "reset is followed by a rebuild from the listed members", "the Grouped data is reset without being rebuilt",
+                       key=f"rebuild:{mname}")
+    ctx.floor("grouped_data_writers", n_w, 5)
+    # removal re-derives the buffer
+    gp = g.methods.get("pop")
+    if gp is not None:
+        src = ast.unparse(gp)
+        ctx.decide("self._data = b''" in src and "self._data += avp.dump()" in src, "R-CONSERVE/grouped-data", f"{g.qual}.pop", g.where(gp),
+                   "pop rebuilds the data from the remaining members",
+                   "GroupedType.pop does not rebuild `_data` from the remaining members: the data keeps (part of) the removed member",
+                   key="pop_rebuild")
     # list constructor routes members through append
     ini = ctx.need(g.methods.get("__init__"), "GroupedType.__init__")
     lb = None
